@@ -80,6 +80,28 @@ def run(P, R, tier):
         pol.check_row(R, "POL.score-b", KEY, tb, row)
     # the left factor must not contain the statistics and vice versa (bilinear form)
     R.check(not any(any("sum_px" in x for x in a) for s, a in ta), "POL.score-a", KEY, "model factor free of test statistics", "", "test statistics appear in the model factor")
+    # ---- the score is bilinear: only linear array operations between the inputs and the result ------------------
+    LINEAR_CALLS = {"array", "asarray", "asanyarray", "ascontiguousarray", "transpose", "tensordot", "dot", "einsum", "matmul", "reshape", "swapaxes", "moveaxis", "sum",
+                    "stack", "vstack", "hstack", "concatenate", "expand_dims", "squeeze", "atleast_2d", "atleast_3d", "copy", "astype", "abs", "where", "isinstance", "hasattr", "len", "float", "multiply", "subtract", "add", "divide", "true_divide", "ValueError"}
+    for r in rets:
+        rc = cone(du, r.value, r, interproc=False)
+        for d in rc.defs:
+            if d.how == "substore" and isinstance(d.stmt, ast.Assign):
+                R.violation("LINEAR.store", KEY, src(d.stmt)[:70], f"elements of `{d.var}`, which the score is computed from, are overwritten selectively: the score is no longer linear in the model offset and the centred statistics (a dead zone / clamp changes small offsets only)", d.stmt.lineno)
+        n_calls = 0
+        for x in rc.nodes:
+            if isinstance(x, ast.Call):
+                fn = x.func.attr if isinstance(x.func, ast.Attribute) else (x.func.id if isinstance(x.func, ast.Name) else None)
+                if fn is None:
+                    continue
+                n_calls += 1
+                if fn == "where":
+                    cc = cone(du, x.args[0], du.stmt_of(x), interproc=False) if x.args else None
+                    okw = cc is not None and any(a.endswith(".t") for a in cc.attrs) and not any(a.endswith((".sum_px", ".n", ".means", ".variances")) for a in cc.attrs)
+                    R.check(okw, "LINEAR.ops", KEY, src(x)[:60], "the only selection is the zero-frame guard on T", "np.where selects on something other than the frame count: the score is not linear in its inputs", x.lineno)
+                elif fn not in LINEAR_CALLS:
+                    R.violation("LINEAR.ops", KEY, src(x)[:60], f"`{fn}` is applied to a value the score is computed from; the score must be a bilinear form of the model offset and the centred statistics (only reshaping, sums and products are linear)", x.lineno)
+        R.ok("LINEAR.ops", KEY, f"{n_calls} calls in the score's cone are linear array operations", "")
     # ---- frame-length normalisation: guarded division by T --------------------------------------
     divs = []
     for n in walk_no_nested(f.node):
